@@ -284,7 +284,7 @@ pub fn replay(path: &str) -> i32 {
     if r.engine == "sessim-rustc" {
         return rustc_replay(&r);
     }
-    let out = exec::execute(&r.run);
+    let (out, _hung) = exec::execute_watched(&r.run, std::time::Duration::from_secs(RUN_TIMEOUT_S));
     if let Some(h) = out.harness_error {
         eprintln!("HARNESS: {h}");
         return 2;
@@ -548,7 +548,7 @@ pub fn check(property: &str, tier: &str, base_seed: u64, workers: usize, runs_ov
         } else {
             shrink::shrink(&desc, &target, 1500)
         };
-        let out = exec::execute(&min);
+        let (out, _hung) = exec::execute_watched(&min, std::time::Duration::from_secs(RUN_TIMEOUT_S));
         let Some(v) = out.violations.iter().find(|v| v.invariant == *inv && v.key == *key) else {
             eprintln!("HARNESS: minimised run for {inv}:{key} (seed {seed}) does not reproduce in-process");
             return CheckResult { exit_code: 2 };
